@@ -59,6 +59,8 @@ def menu(names):
     m += ["from pkg.a import *", "from pkg.b import *", "from pkg import *", "import pkg.nope"]
     # imports whose path goes THROUGH a name of another module (which may be an alias: dangling, cyclic or fine)
     m += [f"from pkg.a.{names[0]} import {names[0]}", f"from pkg.b.{names[0]}.sub import *"]
+    # a name bound to a MODULE (alias of a module), wildcard imports and __all__ lists going through such a name
+    m += [f"from pkg import a as {names[0]}", f"from pkg import b as {names[0]}", f"from pkg.a.{names[0]} import *", f"__all__ = ['{names[0]}', *{names[0]}.__all__]"]
     return m
 
 
@@ -97,7 +99,7 @@ def graphs(tier):
 
 
 def shards(tier):
-    return [("G", i) for i in range(NSHARDS)] + [("H", 0)]
+    return [("G", i) for i in range(NSHARDS)] + [("H", 0), ("H", 1), ("H", 2)]
 
 
 ERRS = None
@@ -113,7 +115,7 @@ def _touch_all(griffe, loader, viols, where):
             if m.is_alias:
                 res = m.resolved
                 row = [m.path, m.target_path, res]
-                for acc_name in ("target", "final_target", "kind", "has_docstring", "is_public", "lineno", "members", "as_json"):
+                for acc_name in ("target", "final_target", "kind", "has_docstring", "has_docstrings", "is_public", "lineno", "members", "as_json"):
                     try:
                         v = getattr(m, acc_name)
                         if acc_name == "as_json":
@@ -281,14 +283,25 @@ H_FILES = {
     "Q/__init__.py": "from P import px\nfrom P import *\nfrom R.deep import *\ndef qx(): ...\nfrom R import fx\n",
     "Q/inner.py": "from P.sub import sx\nfrom Q import qx as ix\nfrom Q.inner import *\n",
 }
+# two more file sets for the same operations: an alias replaced by a wildcard-imported alias while others still hold the old one (staged
+# loading), and a package reached only through the wildcard import of a package that alias resolution loads itself (external=True)
+H2_FILES = {
+    "P/__init__.py": "from P.a import thing as y\nfrom Q import *\n", "P/a.py": "def thing(): ...\n", "P/z.py": "from P import y as z\n", "P/sub.py": "from P.z import z\n",
+    "Q/__init__.py": "from P.z import z as y\n",
+}
+H3_FILES = {
+    "P/__init__.py": "from Q import x\nfrom Q import missing_name\n", "P/sub.py": "from P import x as sx\n",
+    "Q/__init__.py": "from S import *\nfrom T.deep import *\n", "S/__init__.py": "x = 1\nfrom U import *\n", "U/__init__.py": "u = 2\n",
+}
+FILESETS = [None, H2_FILES, H3_FILES]  # (index 0: H_FILES, defined above)
 H_OPS = [("load", "P"), ("load", "Q"), ("load", "P.sub"), ("load", "R")] + [("resolve", i, e) for i in (False, True) for e in (None, False, True)]
 
 
-def run_histories(griffe, tier):
+def run_histories(griffe, tier, fileset=0):
     acc = Acc()
     depth = 4 if tier == "quick" else 5
     with sandbox.scratch_dir("c06h") as d:
-        sandbox.write_tree(d, H_FILES)
+        sandbox.write_tree(d, FILESETS[fileset] or H_FILES)
 
         def replay(hist):
             loader = _new_loader(griffe, d)
@@ -323,12 +336,13 @@ def run_histories(griffe, tier):
                     table = _touch_all(griffe, loader, viols, None)
                     # I4 on this state (passive snapshots: reading must not resolve anything)
                     try:
-                        u1, _ = loader.resolve_aliases(implicit=True, external=False)
-                        s1 = _passive(griffe, loader)
-                        u2, _ = loader.resolve_aliases(implicit=True, external=False)
-                        s2 = _passive(griffe, loader)
-                        if s1 != s2 or u1 != u2:
-                            viols.append(("fixpoint/history", "repeating resolve_aliases changed (resolved, target_path) of some alias or the unresolved set", None))
+                        for ext in (False, True):  # (external=True last: it loads further packages)
+                            u1, _ = loader.resolve_aliases(implicit=True, external=ext)
+                            s1 = _passive(griffe, loader)
+                            u2, _ = loader.resolve_aliases(implicit=True, external=ext)
+                            s2 = _passive(griffe, loader)
+                            if s1 != s2 or u1 != u2:
+                                viols.append((f"fixpoint/history/external={ext}", f"repeating resolve_aliases(external={ext}) changed (resolved, target_path) of some alias or the unresolved set ({sorted(u1)} -> {sorted(u2)})", None))
                     except Exception as e:  # noqa: BLE001
                         viols.append((f"raise/{type(e).__name__}@{_frame(e)}/history-fixpoint", repr(e), None))
                     acc.transitions += 1
@@ -336,7 +350,7 @@ def run_histories(griffe, tier):
                     desc = [" ".join(map(str, H_OPS[i])) for i in h2]
                     for k, s, _w in viols:
                         kk = k if (k.startswith("partial/") and k.endswith("/wildcard-expansion")) else f"{k}/[history]"
-                        acc.violation(kk, s, {"history": desc}, None, size=len(h2))
+                        acc.violation(kk, s, {"history": desc, "fileset": fileset}, None, size=len(h2))
                     dig = hashlib.sha1(repr(table).encode()).hexdigest()
                     acc.observe(dig)
                     if dig not in seen:
@@ -358,7 +372,7 @@ def run_shard(shard, tier):
 
     if shard[0] == "G":
         return run_graphs(griffe, shard[1], tier)
-    return run_histories(griffe, tier)
+    return run_histories(griffe, tier, shard[1])
 
 
 def replay(case):
